@@ -52,7 +52,7 @@ def generate(seed, stratum, tier):
   nq = rng.randrange(1, 4)
   queues = [{'kind': 'deque', 'prefill': 0} for _ in range(nq)]
   sigs = ['SA', 'SB'][:rng.randrange(1, 3)]
-  prios = rng.choice([[1000], [1, 1000], [1, 2, 3], [5, 5, 7], [None, 1000, 1]])
+  prios = rng.choice([[1000], [1, 1000], [1, 2, 3], [5, 5, 7], [None, 1000, 1], [700, 700, 5000], [1000, 5000, 5010]])
   c0 = [['start']]
   for qi in range(nq):
     for s in sigs:
@@ -74,7 +74,7 @@ def generate(seed, stratum, tier):
         'start': rng.randrange(0, 60), 'len': rng.choice([100, 400, 2000])}
   if rng.random() < 0.25:
     sd = common.draw_sched(rng, grans=('sync', 'line'), expected_steps=400, victims=victims)
-  sc = {'queues': queues, 'clients': clients, 'signals': sigs, 'sched': sd}
+  sc = {'queues': queues, 'clients': clients, 'signals': sigs, 'sched': sd, 'fresh_priorities': rng.random() < 0.5}
   if nclients > 1 and rng.random() < 0.6:
     # a slow publisher: a client is descheduled for a while at a drawn point, possibly in the middle of publish(),
     # while the others go on publishing (the "stalled node" fault aimed at the publishers)
